@@ -12,13 +12,23 @@ Clauses (violation ids)
                            different contents (a refusal on the data path is allowed and counted)
   map.index-depends-on-label  the (i,j) keys read from a text depend on the labels / white space, not only on the
                            token positions
-  map.incomplete-drawing   contents -> gridContentsToAscii -> writeAscii produced text, but the text does not read
-                           back to exactly those contents (a cell dropped, moved or relabelled)
-  map.incomplete-drawing.cartesian-negative   same, for Cartesian contents centred on (0,0) (negative indices), which
-                           is what GridBlueprint produces for a full-core Cartesian lattice map
+  map.anchor               a token is not indexed where armi's documentation puts it (Cartesian: (column, row from the
+                           bottom); third core: base table of the docstring, (+2,-1) per column; corners-up: centre (0,0)
+                           and the six documented corners; known answers of armi/utils/tests/test_asciimaps.py).  A round
+                           trip cannot see a consistent shift of reader and writer; this can.
+  map.incomplete-drawing.<cartesian|hex-third-flats|hex-full-flats|hex-full-tips>
+                           contents -> gridContentsToAscii -> writeAscii produced text (no error), but the text does not
+                           read back to exactly those contents (a cell dropped, moved or relabelled)
+  map.incomplete-drawing.<hex-...>.corner-missing
+                           same clause, for contents that lack one of the corner cells of their own outermost ring
+                           (sparse outline).  Own id because the pinned tree fails exactly there (size inference from
+                           max(i+j) / the j=0 row in _updateDimensionsFromData).
+  map.incomplete-drawing.cartesian-negative
+                           same clause, for Cartesian contents centred on (0,0) (negative indices), which is what
+                           GridBlueprint produces for a full-core Cartesian lattice map
   map.slot-collision       two text slots (line, column) of one map are mapped to the same (i,j), or the number of
                            tokens in a text differs from the number of indexed entries read from it
-  grid.save-roundtrip      GridBlueprint(lattice map) -> construct -> saveToStream -> load -> construct gives
+  grid.save-roundtrip.<class>  GridBlueprint(lattice map) -> construct -> saveToStream(tryMap) -> load -> construct gives
                            different grid contents (the user-facing form of the same clause)
 
 The oracle is a round trip / a count; nothing about the text layout is re-implemented here.  The cell domains
@@ -35,6 +45,11 @@ import sys
 sys.path.insert(0, os.path.dirname(os.path.abspath(__file__)))
 from common import Bounded, armi_ready
 
+import tempfile  # noqa: E402
+
+_CWD0 = os.getcwd()
+_TMP = tempfile.TemporaryDirectory(prefix="c18_")
+os.chdir(_TMP.name)  # armi may create logs/ relative to the cwd
 armi_ready()
 import logging  # noqa: E402
 
@@ -47,9 +62,9 @@ B = Bounded(
     rule="per AsciiMap class: (i) shipped lattice-map texts and relabelled/hole-punched/re-spaced variants of them, "
     "(ii) contents = all in-domain cells within R rings (hex) / nx x ny (Cartesian) minus every hole pattern of <= N cells, "
     "plus seeded random hole patterns of any size; non-trivial = distinct (class, contents/text)",
-    bound="hex R<=4 rings, Cartesian <=6x6; holes: every pattern when the map has <=7 (quick) / <=12 (thorough) cells, "
-    "else every pattern of <=2 (quick) / <=3 (thorough; <=4 when <=19 cells) removed cells; random patterns: 150 (quick) / "
-    "1500 (thorough) per map; text variants: 20 (quick) / 150 (thorough) per shipped text",
+    bound="hex R<=4 rings (37 cells full, 13 third), Cartesian <=6x6; holes: every pattern when the map has <=10 (quick) / <=13 (thorough) "
+    "cells, else every pattern of <=3 (quick) / <=4 (thorough; <=5 when <=19 cells) removed cells; random larger patterns: 300 (quick) / "
+    "2000 (thorough) per map; text variants: 20 (quick) / 150 (thorough) per shipped text; centred (negative-index) Cartesian: <=1 / <=2 holes",
 )
 THOROUGH = B.thorough()
 rng = B.rng
@@ -66,10 +81,10 @@ SHORT = {
 
 
 def violation(vid, what, inp, size=0):
-    _V.setdefault(vid, []).append((size, len(_V.get(vid, ())), what, inp))
-    if len(_V[vid]) > 400:  # keep memory bounded, keep the smallest
-        _V[vid] = sorted(_V[vid])[:50]
     _COUNT[vid] = _COUNT.get(vid, 0) + 1
+    _V.setdefault(vid, []).append((size, _COUNT[vid], what, inp))
+    if len(_V[vid]) > 400:  # keep memory bounded, keep the smallest
+        _V[vid] = sorted(_V[vid], key=lambda t: (t[0], t[1]))[:50]
 
 
 _COUNT = {}
@@ -244,6 +259,60 @@ def checkContents(clsName, contents, vidSuffix="", key=None):
 
 refusalKinds = set()
 
+# Absolute text position -> (i,j), as far as armi DOCUMENTS it (class docstrings of asciimaps / known answers of
+# armi/utils/tests/test_asciimaps.py).  A round trip alone cannot see a consistent shift of reader and writer.
+THIRD_BASES_DOC = [(0, 0), (1, 0), (0, 1), (1, 1), (0, 2), (-1, 3), (0, 3), (-1, 4), (-2, 5), (-1, 5), (-2, 6), (-3, 7), (-2, 7)]
+KNOWN_ANSWERS = {
+    "test_asciimaps.CARTESIAN_MAP": {(0, 0): "2", (1, 1): "3", (2, 2): "3", (3, 3): "1"},
+    "test_asciimaps.HEX_THIRD_MAP": {(7, 0): "2", (8, 0): "3", (8, -4): "2", (0, 8): "3", (0, 0): "1"},
+    "test_asciimaps.HEX_THIRD_MAP_WITH_HOLES": {(1, 1): PH, (5, 0): "TG"},
+    "test_asciimaps.HEX_THIRD_MAP_WITH_EMPTY_ROW": {(1, 1): PH, (6, 0): PH, (5, 0): "TG"},
+    "test_asciimaps.HEX_THIRD_MAP_2": {(5, 0): "TG"},
+    "test_asciimaps.HEX_FULL_MAP": {(-9, 9): "7", (-8, 0): "6", (-1, 0): "2", (-1, 8): "8", (0, -6): "3", (0, 0): "0", (9, 0): "4"},
+    "test_asciimaps.HEX_FULL_MAP_FLAT": {(-3, 10): "ORS", (0, -9): "ORS", (0, 0): "IC", (0, 9): "ORS", (4, -6): "RR7", (6, 0): "RR7", (7, -1): "RR89", (-5, 2): "VOTA", (2, 3): "FS"},
+}
+
+
+def documentedIndex(clsName, toks, a, b):
+    """(i,j) that the documentation gives to token b of text line a (from the top), or None where it is silent."""
+    fromBottom = len(toks) - 1 - a
+    if clsName == "AsciiMapCartesian":  # "i and j are equal to column, row", rows from the bottom
+        return (b, fromBottom)
+    if clsName == "AsciiMapHexThirdFlatsUp" and fromBottom < len(THIRD_BASES_DOC):
+        # base table of the docstring; "i increments by 2*col for each col and j decrements by col from the base"
+        bi, bj = THIRD_BASES_DOC[fromBottom]
+        return (bi + 2 * b, bj - b)
+    if clsName == "AsciiMapHexFullTipsUp":
+        # (0,0) in the centre; corners as in test_hexFullCornersUpSpotCheck: the affine map through them
+        n = len(toks)
+        if n % 2 == 1 and max(len(t) for t in toks) == n:
+            R = (n - 1) // 2
+            return (b - R, 2 * R - a - b)
+    return None
+
+
+def checkAnchors(clsName, text, origin, c1):
+    toks = tokensOf(text)
+    inp = {"cls": clsName, "origin": origin, "text": text}
+    bad = []
+    for a, ln in enumerate(toks):
+        for b, t in enumerate(ln):
+            ij = documentedIndex(clsName, toks, a, b)
+            if ij is not None and c1.get(ij) != t:
+                bad.append([a, b, t, list(ij), c1.get(ij)])
+    check(not bad, "map.anchor", "a token is not indexed where the documentation says (line, col, token, documented ij, found there)", dict(inp, bad=bad[:5]), len(text))
+    if "Flats" in clsName:  # flats-up: "to move n columns right, i increases by 2n, j decreases by n"
+        where = {}
+        for k, v in c1.items():
+            where.setdefault(v, []).append(k)
+        for ln in toks:
+            for t, u in zip(ln, ln[1:]):
+                if t != PH and u != PH and len(where.get(t, ())) == 1 and len(where.get(u, ())) == 1:
+                    (i, j), (i2, j2) = where[t][0], where[u][0]
+                    check((i2, j2) == (i + 2, j - 1), "map.anchor", "right-hand neighbour in a flats-up line is not (i+2, j-1)", dict(inp, pair=[t, u]), len(text))
+    for ij, lab in KNOWN_ANSWERS.get(origin, {}).items():
+        check(c1.get(ij) == lab, "map.anchor", "known answer of armi's own test does not hold", dict(inp, ij=list(ij), expected=lab, found=c1.get(ij)), len(text))
+
 
 def checkText(clsName, text, origin, requireDirect=True):
     """Clause (i)+(iii) for one text.  Returns the indexed contents read (incl. placeholders) or None."""
@@ -260,6 +329,7 @@ def checkText(clsName, text, origin, requireDirect=True):
     check(nTok == len(c1), "map.slot-collision", "number of tokens in the text differs from the number of indexed entries", dict(inp, tokens=nTok, entries=len(c1)))
     inj, witness = slotsInjective(m, nLines=len(m.asciiLines))
     check(inj, "map.slot-collision", "two text slots share one (i,j)", dict(inp, witness=witness))
+    checkAnchors(clsName, text, origin, c1)
     # direct: read -> write -> read
     try:
         s = io.StringIO()
@@ -292,14 +362,76 @@ def checkText(clsName, text, origin, requireDirect=True):
     return c1
 
 
+def classForGeom(geom, symmetry):
+    geom = (geom or "hex").strip().lower()
+    sym = (symmetry or "third periodic").strip().lower()
+    if geom == "cartesian":
+        return "AsciiMapCartesian"
+    if geom == "hex_corners_up" and "full" in sym:
+        return "AsciiMapHexFullTipsUp"
+    if geom in ("hex", "hex_corners_up") and "third" in sym:
+        return "AsciiMapHexThirdFlatsUp"
+    if geom == "hex" and "full" in sym:
+        return "AsciiMapHexFullFlatsUp"
+    return None
+
+
+# ------------------------------------------------------------------------------------------------ GridBlueprint level
+from ruamel.yaml import CLoader  # noqa: E402
+from armi.reactor.blueprints.gridBlueprint import Grids, saveToStream  # noqa: E402
+
+
+def gridContentsOf(yamlText, name):
+    g = Grids.load(yamlText, Loader=CLoader)
+    g[name].construct()
+    return g, {tuple(k): v for k, v in g[name].gridContents.items()}
+
+
+def checkGridSave(geom, symmetry, text, origin):
+    doc = "g:\n  geom: %s\n  symmetry: %s\n  lattice map: |\n%s" % (geom, symmetry, "".join("    " + ln + "\n" for ln in text.strip("\n").splitlines()))
+    # strip common indentation-sensitive leading blanks: a YAML literal block keeps relative indentation only
+    inp = {"geom": geom, "symmetry": symmetry, "origin": origin, "lattice map": text}
+    B.case(("gridsave", geom, symmetry, text), None)
+    try:
+        g, c1 = gridContentsOf(doc, "g")
+    except Exception as e:
+        B.extra.setdefault("gridsave_unloadable", []).append("%s: %r" % (origin, e))
+        return
+    try:
+        s = io.StringIO()
+        saveToStream(s, g, full=False, tryMap=True)
+        _g2, c2 = gridContentsOf(s.getvalue(), "g")
+    except Exception as e:
+        violation("grid.save-roundtrip." + SHORT.get(classForGeom(geom, symmetry), "other"), "saveToStream/load of a constructed grid blueprint raised %r" % e, inp)
+        return
+    check(
+        c2 == c1,
+        "grid.save-roundtrip." + SHORT.get(classForGeom(geom, symmetry), "other"),
+        "grid blueprint read from a lattice map, saved and loaded again has different grid contents",
+        dict(inp, saved=s.getvalue(), missing=sorted(k for k in c1 if k not in c2)[:10], extra=sorted(k for k in c2 if k not in c1)[:10]),
+        len(text),
+    )
+
+
+def dedent(text):
+    lines = text.strip("\n").splitlines()
+    ind = min(len(ln) - len(ln.lstrip(" ")) for ln in lines if ln.strip())
+    return "\n".join(ln[ind:] for ln in lines)
+
+
 # ------------------------------------------------------------------------------------------------ replay
 if B.replay is not None:
     r = B.replay
     if "contents" in r:
-        res = checkContents(r["cls"], {(a, b): v for a, b, v in r["contents"]})
+        res = checkContents(r["cls"], {(a, b): v for a, b, v in r["contents"]}, "cartesian-negative" if r["cls"] == "AsciiMapCartesian" and any(a < 0 or b < 0 for a, b, _v in r["contents"]) else "")
+    elif "lattice map" in r:
+        checkGridSave(r["geom"], r["symmetry"], r["lattice map"], r.get("origin", "replay"))
+        res = "grid saved"
     else:
-        res = "read" if checkText(r["cls"], r["text"], "replay") is not None else "unreadable"
+        res = "read" if checkText(r["cls"], r["text"], r.get("origin", "replay")) is not None else "unreadable"
     print('{"result": "%s", "outcome": "%s", "violations": %s}' % ("fail" if _COUNT else "pass", res, json.dumps(_COUNT)))
+    os.chdir(_CWD0)
+    _TMP.cleanup()
     sys.exit(0)
 
 # ------------------------------------------------------------------------------------------------ (i) shipped texts
@@ -327,20 +459,6 @@ import armi  # noqa: E402
 from ruamel.yaml import YAML  # noqa: E402
 
 TESTS_DIR = os.path.join(os.path.dirname(armi.__file__), "tests")
-
-
-def classForGeom(geom, symmetry):
-    geom = (geom or "hex").strip().lower()
-    sym = (symmetry or "third periodic").strip().lower()
-    if geom == "cartesian":
-        return "AsciiMapCartesian"
-    if geom == "hex_corners_up" and "full" in sym:
-        return "AsciiMapHexFullTipsUp"
-    if geom in ("hex", "hex_corners_up") and "third" in sym:
-        return "AsciiMapHexThirdFlatsUp"
-    if geom == "hex" and "full" in sym:
-        return "AsciiMapHexFullFlatsUp"
-    return None
 
 
 def findGrids(node, out):
@@ -444,8 +562,8 @@ for nx in range(1, 7):
         if nx > 1 or ny > 1:
             bases.append(("AsciiMapCartesian", "%dx%d centred" % (nx, ny), rectCells(nx, ny, centred=True), "cartesian-negative"))
 
-ALL_SUBSETS_UPTO = 12 if THOROUGH else 7
-NRANDOM = 1500 if THOROUGH else 150
+ALL_SUBSETS_UPTO = 13 if THOROUGH else 10
+NRANDOM = 2000 if THOROUGH else 300
 outcomes = {}
 for clsName, desc, cells, suffix in bases:
     if clsName not in MAP_CLASSES:
@@ -456,11 +574,11 @@ for clsName, desc, cells, suffix in bases:
     if n <= ALL_SUBSETS_UPTO:
         maxHoles = n - 1
     elif THOROUGH:
-        maxHoles = 4 if n <= 19 else 3
+        maxHoles = 5 if n <= 19 else 4
     else:
-        maxHoles = 2
-    if suffix and not THOROUGH:
-        maxHoles = min(maxHoles, 1)  # known-bad family: one representative per size is enough in the quick tier
+        maxHoles = 3
+    if suffix:
+        maxHoles = min(maxHoles, 2 if THOROUGH else 1)  # centred Cartesian: a few representatives per size
     tally = outcomes.setdefault(clsName + ("." + suffix if suffix else ""), {"drawn": 0, "refused": 0, "violation": 0})
     for k in range(0, maxHoles + 1):
         for holes in itertools.combinations(cells, k):
@@ -477,49 +595,7 @@ for clsName, desc, cells, suffix in bases:
 B.extra["contents_outcomes"] = outcomes
 B.extra["refusal_kinds"] = sorted(refusalKinds)[:12]
 
-# ------------------------------------------------------------------------------------------------ GridBlueprint level
-from ruamel.yaml import CLoader  # noqa: E402
-from armi.reactor.blueprints.gridBlueprint import Grids, saveToStream  # noqa: E402
-
-
-def gridContentsOf(yamlText, name):
-    g = Grids.load(yamlText, Loader=CLoader)
-    g[name].construct()
-    return g, {tuple(k): v for k, v in g[name].gridContents.items()}
-
-
-def checkGridSave(geom, symmetry, text, origin):
-    doc = "g:\n  geom: %s\n  symmetry: %s\n  lattice map: |\n%s" % (geom, symmetry, "".join("    " + ln + "\n" for ln in text.strip("\n").splitlines()))
-    # strip common indentation-sensitive leading blanks: a YAML literal block keeps relative indentation only
-    inp = {"geom": geom, "symmetry": symmetry, "origin": origin, "lattice map": text}
-    B.case(("gridsave", geom, symmetry, text), None)
-    try:
-        g, c1 = gridContentsOf(doc, "g")
-    except Exception as e:
-        B.extra.setdefault("gridsave_unloadable", []).append("%s: %r" % (origin, e))
-        return
-    try:
-        s = io.StringIO()
-        saveToStream(s, g, full=False, tryMap=True)
-        _g2, c2 = gridContentsOf(s.getvalue(), "g")
-    except Exception as e:
-        violation("grid.save-roundtrip." + SHORT.get(classForGeom(geom, symmetry), "other"), "saveToStream/load of a constructed grid blueprint raised %r" % e, inp)
-        return
-    check(
-        c2 == c1,
-        "grid.save-roundtrip." + SHORT.get(classForGeom(geom, symmetry), "other"),
-        "grid blueprint read from a lattice map, saved and loaded again has different grid contents",
-        dict(inp, saved=s.getvalue(), missing=sorted(k for k in c1 if k not in c2)[:10], extra=sorted(k for k in c2 if k not in c1)[:10]),
-        len(text),
-    )
-
-
-def dedent(text):
-    lines = text.strip("\n").splitlines()
-    ind = min(len(ln) - len(ln.lstrip(" ")) for ln in lines if ln.strip())
-    return "\n".join(ln[ind:] for ln in lines)
-
-
+# ------------------------------------------------------------------------------------------------ GridBlueprint level: run
 done = set()
 for origin, clsName, geom, sym, text in yamlGrids:
     if (geom, sym, text) not in done:
@@ -544,4 +620,6 @@ for clsName, origin, text in shipped:
 B.extra["refused_by_class"] = refused
 B.extra["drawn_by_class"] = drawn
 flushViolations()
+os.chdir(_CWD0)
+_TMP.cleanup()
 B.finish(exhaustive=False)
